@@ -99,12 +99,15 @@ class DilutionPlan:
         # (column, dilution steps, prepared from, transfer volumes)
         instructions: List[Tuple[int, int, Union[int, str], numpy.ndarray]] = []
         actual_targets = []
+        # volume [µL] in every well of a prepared column, that was not yet planned for serial dilutions
+        v_remaining: List[numpy.ndarray] = []
 
         # transfer from stock until the volume is too low
         for c in range(C):
             vtransfer = numpy.round(vmax_arr[c] * ideal_targets[:, c] / stock, 0)
             if all(vtransfer >= min_transfer):
                 instructions.append((c, 0, "stock", vtransfer))
+                v_remaining.append(numpy.repeat(vmax_arr[c], R).astype(float))
                 # compute the actually achieved target concentration
                 actual_targets.append(vtransfer / vmax_arr[c] * stock)
             else:
@@ -117,11 +120,14 @@ class DilutionPlan:
                 _, src_df, _, _ = instructions[src_c]
                 vtransfer = numpy.ceil(vmax_arr[c] * ideal_targets[:, c] / actual_targets[src_c])
                 # take the leftmost column (least dilution steps) where the minimal transfer volume is exceeded
-                if all(vtransfer >= min_transfer):
+                # and that still holds enough volume after the transfers that were already planned from it
+                if all(vtransfer >= min_transfer) and all(vtransfer <= v_remaining[src_c]):
                     instructions.append(
                         # increment the dilution step counter
                         (c, src_df + 1, src_c, vtransfer)
                     )
+                    v_remaining[src_c] = v_remaining[src_c] - vtransfer
+                    v_remaining.append(numpy.repeat(vmax_arr[c], R).astype(float))
                     # compute the actually achieved target concentration
                     actual_targets.append(vtransfer * actual_targets[src_c] / vmax_arr[c])
                     break
